@@ -1,5 +1,21 @@
 #!/bin/sh
-# MANIFEST.setup_cmd: build the whole Lean library from files on disk (offline, no `require`).
+# MANIFEST.setup_cmd: build the Lean modules of every claimed check from files on disk
+# (offline, no `require`). Targets are derived from MANIFEST.json: Props.Cxx, Props.Cxx_*, Driver.Cxx.
 set -e
-cd "$(dirname "$0")/lean"
-lake build SpyneModel Proofs Props Driver 2>&1 | tail -5
+cd "$(dirname "$0")"
+TARGETS=$(python3 - <<'PY'
+import glob, json, os
+m = json.load(open('MANIFEST.json'))
+t = []
+for c in m['checks']:
+    p = c['property_id']
+    for f in sorted(glob.glob('lean/Props/%s.lean' % p) + glob.glob('lean/Props/%s_*.lean' % p)):
+        t.append('Props.' + os.path.basename(f)[:-5])
+    for f in sorted(glob.glob('lean/Driver/%s.lean' % p) + glob.glob('lean/Driver/%s[a-z]*.lean' % p)):
+        t.append('Driver.' + os.path.basename(f)[:-5])
+print(' '.join(t))
+PY
+)
+cd lean
+echo "lake build $TARGETS"
+lake build $TARGETS 2>&1 | tail -5
